@@ -43,6 +43,7 @@ impl Bench {
             progress: 0,
             env_steps: 0,
             manual,
+            stall_next_write: false,
             keep_tx: true,
             last_cancel_forced: false,
             held: Vec::new(),
